@@ -67,6 +67,10 @@ SCENARIOS = [
     # the server asks for a certificate, the client has none
     {"version": [3, 3], "flavour": "cert", "skey": "rsa", "req_cert": True},
     {"version": [3, 0], "flavour": "cert", "skey": "rsa", "req_cert": True},
+    # the client supports (and offers) more than the server negotiates; in
+    # C06 its ClientHello also announces early data
+    {"version": [3, 3], "flavour": "psk", "skey": "rsa", "cmax": [3, 4],
+     "psk": True, "early_data": True},
 ]
 FLAGS = [(True, False), (True, True), (False, False), (False, True)]
 # (closeSocket, ignoreAbruptClose)
@@ -83,6 +87,8 @@ def full_scenario(i):
         b["sset"]["pskConfigs"] = [list(scen.PSK_HEX)]
     if b.pop("hrr", None):
         b["cset"]["keyShares"] = []
+    if b.get("cmax"):
+        b["cset"] = dict(b["cset"], maxVersion=b.pop("cmax"))
     if b.pop("dsa", None):
         b["cset"]["keyExchangeNames"] = ["dhe_dsa"]
     return b
